@@ -182,6 +182,10 @@ pub enum Pop {
     Value(Val),
     NotFound,
     OtherErr,
+    /// writes the first chunk of the value, then fails with NotFound
+    PartialNotFound(Val),
+    /// writes the first chunk of the value, then fails with another error
+    PartialErr(Val),
 }
 
 #[derive(Clone, Debug, PartialEq, Eq, Hash)]
@@ -243,6 +247,8 @@ fn pop_label(p: &Pop) -> String {
         Pop::Value(v) => v.label(),
         Pop::NotFound => "NotFound".into(),
         Pop::OtherErr => "Err".into(),
+        Pop::PartialNotFound(v) => format!("{}-cut-NotFound", v.label()),
+        Pop::PartialErr(v) => format!("{}-cut-Err", v.label()),
     }
 }
 
@@ -512,6 +518,13 @@ fn populate(dst: &mut File, pop: Pop) -> std::io::Result<()> {
         Pop::Value(v) => write_val(dst, v),
         Pop::NotFound => Err(std::io::Error::new(ErrorKind::NotFound, "populate: not found")),
         Pop::OtherErr => Err(std::io::Error::new(ErrorKind::Other, "populate: failed")),
+        Pop::PartialNotFound(v) | Pop::PartialErr(v) => {
+            if let Some(c) = v.chunks().first() {
+                dst.write_all(c)?;
+            }
+            let kind = if matches!(pop, Pop::PartialNotFound(_)) { ErrorKind::NotFound } else { ErrorKind::Other };
+            Err(std::io::Error::new(kind, "populate: failed half-way"))
+        }
     }
 }
 
